@@ -1,3 +1,5 @@
+//go:build all || c11
+
 package props
 
 import (
@@ -61,11 +63,6 @@ func (w *wordImage) Set(x, y int, c color.Color) {
 	}
 	r, g, b, a := c.RGBA()
 	w.Pix[w.idx(x, y)] = uint64(r&0xffff)<<48 | uint64(g&0xffff)<<32 | uint64(b&0xffff)<<16 | uint64(a&0xffff)
-}
-
-func mix(h uint64, v uint64) uint64 {
-	h ^= v + 0x9E3779B97F4A7C15 + (h << 6) + (h >> 2)
-	return h
 }
 
 func hashImage(img image.Image) uint64 {
